@@ -762,6 +762,14 @@ class SynGen(GroupBase):
             return list(set(lst1) & set(lst2))
 
         bus_gen_island = intersect(bus_idx, bus_gen)
+
+        # no synchronous generator in the island (or in the system at all)
+        if len(bus_gen_island) == 0:
+            self.idx_island = []
+            self.uid_island = []
+            self.delta_addr = np.array([], dtype=int)
+            return
+
         self.idx_island = self.find_idx(keys='bus',
                                         values=bus_gen_island)
         self.uid_island = self.idx2uid(self.idx_island)
